@@ -37,7 +37,9 @@ type FanSpec struct {
 	ViaLoader bool `json:"viaLoader,omitempty"`
 	// CmdPadded (cmd fans): the read-back tool prints zero-padded decimals
 	CmdPadded bool `json:"cmdPadded,omitempty"`
-	// CmdChatty (cmd fans): the tools write a diagnostic to stderr while they answer normally (exit status 0)
+	// CmdChatty (cmd fans): the read-back tool writes a diagnostic to stderr, while it answers normally (exit status 0),
+	// whenever the device does not hold what was last written through the set tool (somebody else has taken it over);
+	// the tachometer tool always does
 	CmdChatty bool `json:"cmdChatty,omitempty"`
 	// CmdOneTool (cmd fans): setPwm, getPwm and getRpm are one executable called with different arguments (the README's
 	// nvidia-settings example, ipmitool, liquidctl ...)
@@ -283,12 +285,13 @@ func buildWorld(ctx *Ctx, sc *Scenario) *World {
 		_ = os.MkdirAll(dir, 0755)
 		w.cmdDir = dir
 		_ = os.WriteFile(filepath.Join(dir, "pwm"), []byte(strconv.Itoa(sc.InitPwm)), 0644)
+		_ = os.WriteFile(filepath.Join(dir, "lastset"), []byte(strconv.Itoa(sc.InitPwm)), 0644)
 		_ = os.WriteFile(filepath.Join(dir, "theta"), []byte(strconv.Itoa(sc.Plant.Theta)), 0644)
 		// while the file "setfail" exists the set command fails without touching the device
-		cmdScript(filepath.Join(dir, "set.sh"), "if [ -e "+dir+"/setfail ]; then exit 1; fi; echo \"$1\" > "+dir+"/pwm; echo \"$1\" >> "+dir+"/writes")
+		cmdScript(filepath.Join(dir, "set.sh"), "if [ -e "+dir+"/setfail ]; then exit 1; fi; echo \"$1\" > "+dir+"/pwm; echo \"$1\" > "+dir+"/lastset; echo \"$1\" >> "+dir+"/writes")
 		// while the file "garble" exists the tool answers with a message instead of the value (exit status 0)
 		// while the file "flaky" exists every second query is answered that way (a rate-limited embedded controller)
-		cmdScript(filepath.Join(dir, "get.sh"), "if [ -e "+dir+"/getfail ]; then echo 'device busy' >&2; exit 1; fi; if [ -e "+dir+"/chatty ]; then echo 'warning: channel is under firmware control' >&2; fi; if [ -e "+dir+"/flaky ]; then n=$(cat "+dir+"/flaky); n=$((n+1)); echo $n > "+dir+"/flaky; if [ $((n%2)) = 0 ]; then echo 'device busy'; exit 0; fi; fi; if [ -e "+dir+"/garble ]; then echo 'device busy'; elif [ -e "+dir+"/padded ]; then printf '%03d\\n' $(cat "+dir+"/pwm); else cat "+dir+"/pwm; fi")
+		cmdScript(filepath.Join(dir, "get.sh"), "if [ -e "+dir+"/getfail ]; then echo 'device busy' >&2; exit 1; fi; if [ -e "+dir+"/chatty ] && [ \"$(cat "+dir+"/pwm)\" != \"$(cat "+dir+"/lastset 2>/dev/null)\" ]; then echo 'warning: channel is under firmware control' >&2; fi; if [ -e "+dir+"/flaky ]; then n=$(cat "+dir+"/flaky); n=$((n+1)); echo $n > "+dir+"/flaky; if [ $((n%2)) = 0 ]; then echo 'device busy'; exit 0; fi; fi; if [ -e "+dir+"/garble ]; then echo 'device busy'; elif [ -e "+dir+"/padded ]; then printf '%03d\\n' $(cat "+dir+"/pwm); else cat "+dir+"/pwm; fi")
 		if sc.Fan.CmdChatty {
 			_ = os.WriteFile(filepath.Join(dir, "chatty"), []byte("1"), 0644)
 		}
@@ -306,7 +309,7 @@ func buildWorld(ctx *Ctx, sc *Scenario) *World {
 		}
 		if sc.Fan.CmdTwice {
 			// one argument "<pwm> <pwm>" (a command driving two controls): both halves must be the number
-			cmdScript(filepath.Join(dir, "set2.sh"), "a=${1%% *}; b=${1##* }; if [ \"$a\" = \"$b\" ]; then v=$a; else v=\"$1\"; fi; echo \"$v\" > "+dir+"/pwm; echo \"$v\" >> "+dir+"/writes")
+			cmdScript(filepath.Join(dir, "set2.sh"), "a=${1%% *}; b=${1##* }; if [ \"$a\" = \"$b\" ]; then v=$a; else v=\"$1\"; fi; echo \"$v\" > "+dir+"/pwm; echo \"$v\" > "+dir+"/lastset; echo \"$v\" >> "+dir+"/writes")
 			cfg.Cmd.SetPwm = &configuration.ExecConfig{Exec: filepath.Join(dir, "set2.sh"), Args: []string{"%pwm% %pwm%"}}
 		}
 		if sc.Fan.HasRpm {
